@@ -6,7 +6,7 @@ open Conv
 exception Unsupported
 
 type rtcase = {
-  o : opts; custom_nf : bool; custom_na : bool; lateopt : bool;
+  o : opts; custom_nf : bool; custom_na : bool; lateopt : bool; group : n list option;
   defs : (n list list * n list * bool) list;       (* raw methods, raw path, nil handler *)
   qs : (string * n list * n list) list;            (* kind, method, path *)
 }
@@ -14,7 +14,7 @@ type rtcase = {
 let parse_case = function
   | L [A "rt"; L os; L ds; L qs] ->
     let strict = ref false and na = ref false and fb = ref false and caching = ref false and cap = ref 1000
-    and icpt = ref [] and nf = ref false and nal = ref false and late = ref false in
+    and icpt = ref [] and nf = ref false and nal = ref false and late = ref false and grp = ref None in
     List.iter (function
         | L [A "strict"] -> strict := true
         | L [A "na"] -> na := true
@@ -23,10 +23,11 @@ let parse_case = function
         | L [A "intercept"; p] -> icpt := trim_space (str p)
         | L [A "nf"] -> nf := true
         | L [A "nal"] -> nal := true
+        | L [A "group"; p] -> grp := Some (str p)   (* every definition is registered inside r.Group(p, ...) *)
         | L [A "lateopt"] -> late := true       (* Router.WithOptions(<no-op option>) after the registrations *)
         | x -> failwith ("rt: bad option " ^ to_string x)) os;
     { o = { o_strict = !strict; o_na = !na; o_fallback = !fb; o_caching = !caching; o_cap = nat_of_int !cap; o_intercept = !icpt };
-      custom_nf = !nf; custom_na = !nal; lateopt = !late;
+      custom_nf = !nf; custom_na = !nal; lateopt = !late; group = !grp;
       defs = List.map (function L [L ms; p; nh] -> (List.map str ms, str p, bool nh) | x -> failwith ("rt: bad def " ^ to_string x)) ds;
       qs = List.map (function L [A k; m; p] -> (k, str m, str p) | x -> failwith ("rt: bad query " ^ to_string x)) qs }
   | x -> failwith ("rt: bad case " ^ to_string x)
@@ -36,7 +37,7 @@ let build (c : rtcase) (caching : bool) =
   let o = if caching then c.o else { c.o with o_caching = false } in
   let rt = ref (new_router o) and regs = ref [] and ridmap = ref [] and meths = ref [] in
   List.iteri (fun i (ms, p, nh) ->
-      let d = match reg_path o.o_strict [] p with
+      let d = match reg_path o.o_strict (match c.group with Some g -> [g] | None -> []) p with
         | Ok path -> Some { df_methods = format_methods ms; df_path = path; df_nil_handler = nh; df_name = str_of_ascii ("r" ^ string_of_int i) }
         | Panic -> None in
       match d with
@@ -133,7 +134,7 @@ let spec_table (c : rtcase) (regs : Sexp.t list) =
   let ok = ref true in
   let rows = List.concat (List.mapi (fun i (ms, p, _) ->
       if List.nth regs i <> A "ok" then [] else
-        match reg_path c.o.o_strict [] p with
+        match reg_path c.o.o_strict (match c.group with Some g -> [g] | None -> []) p with
         | Panic -> ok := false; []
         | Ok path ->
           if is_fixed_path path then [(i, { s_methods = format_methods ms; s_path = path; s_pat = None })] else
@@ -313,7 +314,7 @@ let c13_judge cs obs =
             if nh then bad := "bad nil-handler-accepted def=" ^ string_of_int i
             else if fm = [] then bad := "bad empty-methods-accepted def=" ^ string_of_int i
             else if List.exists (fun m -> not (List.exists (str_eqb m) any_methods)) fm then bad := "bad unknown-method-accepted def=" ^ string_of_int i
-            else match reg_path c.o.o_strict [] p with
+            else match reg_path c.o.o_strict (match c.group with Some g -> [g] | None -> []) p with
               | Ok path ->
                 (match compile_dyn path with
                  | Panic -> if not (is_fixed_path path) then bad := "bad invalid-pattern-accepted def=" ^ string_of_int i
